@@ -9,4 +9,4 @@ EXPLANATION = (
 UNDECIDED = "chunking correctness is C18's; numeric formatting to 3 decimals is not analysed."
 ASSUMPTIONS = [K.A_PRED, "VecDeque / crossbeam channels are FIFO"]
 OBLIGATIONS = [K.AVG_STATS, K.NAME_TABLE, K.AVG_SIBS, K.AVG_REASM, K.VALUES_OVER_BED, K.WIG_KEEP, K.CHUNKER, K.FV_SEEK, K.FV_READ]
-OBLIGATIONS = OBLIGATIONS + [K.ARG_NAMES]
+OBLIGATIONS = OBLIGATIONS + [K.ARG_NAMES, K.AVG_ITER]
